@@ -275,6 +275,48 @@ static void build(vf::Plan &plan, const vf::Opts &o)
                        return show_cps(cps);
                    });
     }
+    // every scalar value as a single character argument: concatenation and += with wchar_t / char32_t (and char16_t in the BMP) on
+    // either side - one character in, its standard UTF-8 form appended
+    plan.stage("all scalars as a character operand of + and += (wchar_t, char32_t, char16_t; left and right)", NSCALARS,
+               [](uint64_t i, Ctx &c) {
+                   uint32_t v = nth_scalar((uint32_t)i);
+                   U32V cps = {v}, u8;
+                   encode_cps(cps, ref::E8, u8);
+                   std::string w;
+                   for (uint32_t b : u8) w += (char)b;
+                   const std::string pre = "ab", wl = w + pre, wr = pre + w;
+                   ST::string base = ST::string::from_validated("ab", 2);
+                   auto bytes = [](const ST::string &x) { return std::string(x.c_str(), x.size()); };
+                   vf::Outcome o = vf::guard([&] {
+                       std::string g[8];
+                       g[0] = bytes((wchar_t)v + base);
+                       g[1] = bytes(base + (wchar_t)v);
+                       g[2] = bytes((char32_t)v + base);
+                       g[3] = bytes(base + (char32_t)v);
+                       ST::string t = base;
+                       t += (wchar_t)v;
+                       g[4] = bytes(t);
+                       ST::string t2 = base;
+                       t2 += (char32_t)v;
+                       g[5] = bytes(t2);
+                       if (v < 0x10000) {
+                           g[6] = bytes((char16_t)v + base);
+                           g[7] = bytes(base + (char16_t)v);
+                       } else {
+                           g[6] = wl;
+                           g[7] = wr;
+                       }
+                       static const char *const N[8] = {"wchar_t + s", "s + wchar_t", "char32_t + s", "s + char32_t", "s += wchar_t", "s += char32_t", "char16_t + s", "s + char16_t"};
+                       VF_COUNT("validated");
+                       for (int k = 0; k < 8; ++k) {
+                           const std::string &want = (k == 0 || k == 2 || k == 6) ? wl : wr;
+                           if (g[k] != want) c.fail(strf("c01:%s:wrong-units", N[k]), strf("U+%04X: %s gives %s, expected %s", v, N[k], vf::hex_str(g[k], 16).c_str(), vf::hex_str(want, 16).c_str()));
+                       }
+                   });
+                   if (!o.ok()) c.fail(strf("c01:character-operand:%s", vf::outkind_name(o.kind)), strf("U+%04X: %s", v, o.str().c_str()));
+                   if (v >= 0x80) c.nontrivial();
+               },
+               [](uint64_t i) { return strf("U+%04X as a character operand", nth_scalar((uint32_t)i)); });
     // long periodic texts: lengths around 2 KiB and 4 KiB (where per-block counters of a word-at-a-time loop would wrap) with a
     // multi-unit character at the same offset of every 8-unit group, for each of the 8 offsets; and uniform texts
     {
